@@ -144,7 +144,7 @@ theorem live_comp_id {α} {A B : Stage α α} {dnA upA dnB upB : Bool} (gA : Goo
     (by cases dnB <;> simp) (by cases upA <;> simp)
 
 /-- `regDecouple` = blocking register, then skid buffer: the skid buffer's unconditional readiness is what the blocking
-    register needs (utils.h:777 "we can use blocking reg here since regReady guarantees high ready signal") -/
+    register needs (utils.h:750 "we can use blocking reg here since regReady guarantees high ready signal") -/
 theorem live_regDecouple {α} (d0 : α) : Live (regDecouple d0) Trans.idT okTrue false true :=
   live_comp_id (good_regDownstreamBlocking d0) (live_regDownstreamBlocking d0) (live_regReady d0) (Or.inl rfl)
 
